@@ -47,6 +47,8 @@ Definition init (k : Z) : list op :=
 Definition run_digest_v (v : cfg) (c : Z * list op) : list Z :=
   [to_Z (h63_list 0%uint63 (trace (empty_state_v v) (init (fst c) ++ snd c)))].
 Definition run_digest := run_digest_v cfg0.
+Definition run_digest_nc_v (v : cfg) (c : Z * list op) : list Z :=
+  [to_Z (h63_list 0%uint63 (trace_nc (empty_state_v v) (init (fst c) ++ snd c)))].
 
 (* detail for diagnosing a mismatch: per step, outcome and printed state *)
 Fixpoint trace_full (s : state) (h : list op) : list (list Z) :=
